@@ -379,9 +379,11 @@ def spec_strategy(depth=3, sat=True, alias=True, patterns=True, custom=False, de
                 dict_spec(depth, sat, opts), dict_spec(depth, sat, opts),
                 any_spec(depth, sat, opts)]
     if alias:
-        branches.append(st.builds(lambda n, s: {"t": "alias", "name": n, "spec": s},
-                                  st.sampled_from(["Alias", "T", "user_id"]),
-                                  st.deferred(lambda: spec_strategy(depth - 1, sat, **opts))))
+        def _alias(n, s, chain):
+            out = {"t": "alias", "name": n, "spec": s}
+            return {"t": "alias", "name": n + "_outer", "spec": out} if chain == 0 else out     # alias of an alias
+        branches.append(st.builds(_alias, st.sampled_from(["Alias", "T", "user_id"]),
+                                  st.deferred(lambda: spec_strategy(depth - 1, sat, **opts)), st.integers(0, 2)))
     if derived:
         sub = st.deferred(lambda: spec_strategy(depth - 1, sat, **opts))
         dsub = st.deferred(lambda: dict_spec(depth, sat, opts))
